@@ -112,7 +112,15 @@ Fixpoint collect {A} (l : list (option (list A))) : option (list A) :=
 (* a script: environment labels that must be possible, labels that are skipped where they are
    not possible (the step of a racy injection may find the connection already closed), and Q:
    every goroutine runs until it blocks (all scheduling choices explored) *)
-Inductive item := Must (l : label) | May (l : label) | Q.
+Inductive item := Must (l : label) | May (l : label) | Q | P.
+
+(* P: every state reachable by zero or more scheduling steps (not only the quiescent ones): inside a
+   racy step the next environment event may land between any two of them *)
+Fixpoint partial1 (fuel : nat) (c : cfg1) (s : h1) : list h1 :=
+  match fuel with
+  | 0 => [s]
+  | S f => s :: flat_map (partial1 f c) (succs c s)
+  end.
 
 Definition apply_must (c : cfg1) (ss : list h1) (l : label) : list h1 :=
   flat_map (fun s => match step1 c s l with Some s' => [s'] | None => [] end) ss.
@@ -125,6 +133,7 @@ Fixpoint exec (c : cfg1) (ss : list h1) (is : list item) : option (list h1) :=
   | Must l :: r => match apply_must c ss l with [] => None | ss' => exec c ss' r end
   | May l :: r => exec c (apply_may c ss l) r
   | Q :: r => match collect (map (quiesce fuel1 c) ss) with Some ss' => exec c ss' r | None => None end
+  | P :: r => exec c (flat_map (partial1 12 c) ss) r
   end.
 
 Definition seqQ (ls : list label) : list item := flat_map (fun l => [Must l; Q]) ls.
@@ -155,6 +164,7 @@ Definition scripts (union : bool) (pre racy inj post : list label) : list (list 
       let body := flat_map (fun p =>
         let done := firstn p racy in
         let rest := skipn p racy in
+        (seqQ pre ++ seqQ done ++ map Must inj ++ [P] ++ flat_map (fun l => [May l; P]) rest ++ [Q] ++ seqQ post) ::
         (seqQ pre ++ seqQ done ++ seqQ inj ++ mayQ rest ++ seqQ post) ::
         (seqQ pre ++ seqQ done ++ map Must inj ++ mayQ rest ++ seqQ post) ::
         match rest with
@@ -171,7 +181,14 @@ Definition allowed (c : cfg1) (union : bool) (pre racy inj post : list label) : 
   end.
 
 (* ---- HTTP/2: the same script interpreter over step2 ---- *)
-Inductive item2 := Must2 (l : label2) | May2 (l : label2) | Q2.
+Inductive item2 := Must2 (l : label2) | May2 (l : label2) | Q2 | P2.
+
+Fixpoint partial2 (fuel : nat) (hb : bool) (s : h2) : list h2 :=
+  match fuel with
+  | 0 => [s]
+  | S f => s :: flat_map (partial2 f hb)
+                 (flat_map (fun l => match step2 hb s l with Some s' => [s'] | None => [] end) internals2)
+  end.
 
 Fixpoint exec2 (hb : bool) (ss : list h2) (is : list item2) : option (list h2) :=
   match is with
@@ -183,6 +200,7 @@ Fixpoint exec2 (hb : bool) (ss : list h2) (is : list item2) : option (list h2) :
       end
   | May2 l :: r => exec2 hb (map (fun s => match step2 hb s l with Some s' => s' | None => s end) ss) r
   | Q2 :: r => match collect (map (quiesce2 fuel1 hb) ss) with Some ss' => exec2 hb ss' r | None => None end
+  | P2 :: r => exec2 hb (flat_map (partial2 12 hb) ss) r
   end.
 
 Definition seqQ2 (ls : list label2) : list item2 := flat_map (fun l => [Must2 l; Q2]) ls.
@@ -198,6 +216,7 @@ Definition scripts2 (union : bool) (pre racy inj : list label2) : list (list ite
       let body := flat_map (fun p =>
         let done := firstn p racy in
         let rest := skipn p racy in
+        (seqQ2 pre ++ seqQ2 done ++ map Must2 inj ++ [P2] ++ flat_map (fun l => [May2 l; P2]) rest ++ [Q2]) ::
         (seqQ2 pre ++ seqQ2 done ++ seqQ2 inj ++ mayQ2 rest) ::
         (seqQ2 pre ++ seqQ2 done ++ map Must2 inj ++ mayQ2 rest) ::
         match rest with
